@@ -13,5 +13,5 @@ CONSTANTS
   Wk <- WkSet
   MaxNow = 2
   FIX = TRUE
-INVARIANTS PrintReplay Once CapOK WaitShape ListedAreArmed NoAccessToDeadSignal LatestWoken
+INVARIANTS PrintReplay Once CapOK WaitShape ListedAreArmed ClosedShape DisconnectShape NoAccessToDeadSignal LatestWoken TimeoutNotEarly TryNeverWaits LockHolderRuns NoStuck NoLeak Fifo FifoNow
 CHECK_DEADLOCK FALSE
